@@ -1371,9 +1371,10 @@ class MovieHeaderBox(FullBox):
 
     def __setattr__(self, name, value):
         if name == 'duration':
-            if self.version == 0 and self.duration.bit_length() > 32:
+            if self.version == 0 and value.bit_length() > 32:
+                # creation_time, modification_time and duration each grow by 4 bytes
                 self.version = 1
-                self.update_size(4)
+                self.update_size(12)
         elif name == 'version':
             if value == 0 and self.duration.bit_length() > 32:
                 raise ValueError('Duration is too large to use version 0 header')
